@@ -11,6 +11,7 @@
 //@include inc/uncompact_fns.rs
 //@include inc/compact_spec.rs
 //@include inc/maximal_spec.rs
+//@include inc/scan_order.rs
 //@include inc/compact_refines.rs
 //@include inc/canonical_spec.rs
 //@include inc/compact_fns.rs
